@@ -73,9 +73,9 @@ PROPS['C05'] = dict(
         functions=['OperatorProduct::transform', 'OperatorSum::transform/add', 'ScalarMultiplication::transform', 'operator*(O1,O2)', 'operator+(O1,O2)', 'operator-(O1,O2)',
                    'operator*(S,O)', 'operator*(O,S)', 'operator/(O,S)', 'operator+(O,S)', 'operator+(S,O)', 'operator-(O,S)', 'operator-(S,O)', 'operator-(O)',
                    'SplineOperator::transform', 'Derivative::transform', 'Position::transform', 'IdentityOperator::transform', 'transformSpline']))],
-    bounds=dict(quick='expression trees: 10 named (commutator, hydrogen-like, generator, ...) + all 198 trees with one composite node over the leaves {I, X<1>, X<2>, Dx<1>, Dx<2>, SplineOperator(v)} with scalars of type T (symbolic) and int (literals, incl. int divisors) + 84 one-level trees with scalars of type unsigned, size_t, long, short + all 315 nestings of two builder functions (unary over unary, binary over a unary child on either side) + 160 seed-selected further trees with two composite nodes; operand orders 0..2; factor order 1; every operand window x every factor window on grids of 2..4 symbolic points; every operator is built from named scalar/spline objects that are overwritten before the operator is applied',
+    bounds=dict(quick='expression trees: 10 named (commutator, hydrogen-like, generator, ...) + all 198 trees with one composite node over the leaves {I, X<1>, X<2>, Dx<1>, Dx<2>, SplineOperator(v)} with scalars of type T (symbolic) and int (literals, incl. int divisors) + 84 one-level trees with scalars of type unsigned, size_t, long, short + all 315 nestings of two builder functions (unary over unary, binary over a unary child on either side) + 160 seed-selected further trees with two composite nodes + 48 seed-selected trees with builders nested three and four deep; operand orders 0..2; factor order 1; every operand window x every factor window on grids of 2..4 symbolic points; every operator is built from named scalar/spline objects that are overwritten before the operator is applied',
                 thorough='all 2808 two-level trees of the generator, operand orders 0..3, factor orders 1 and 2, grids of 2..5 points'),
-    outside='deeper trees than two composite nodes above the leaves; X<n>/Dx<n> with n>2 inside expressions (covered alone by C04); lvalue operator operands (do not compile); scalar types other than T, int, unsigned, size_t, long, short',
+    outside='trees deeper than two composite nodes other than the sampled 48 (240) with three/four levels; X<n>/Dx<n> with n>2 inside expressions (covered alone by C04); lvalue operator operands (do not compile); scalar types other than T, int, unsigned, size_t, long, short',
     assumptions=['grid points strictly increasing reals', 'T-typed divisor non-zero', 'exact real arithmetic (sym::Real), not IEEE'],
     trusted=A_TRUST + ['symt/gen/gen_exprs.py (tree enumeration and reference interpreter)'],
     level_text='Bounded symbolic model checking over programs: each enumerated expression tree is a distinct template instantiation of the real operator classes; it is applied to a spline with symbolic coefficients on a symbolic grid and compared on every interval at a symbolic x with a 40-line reference interpreter working on origin-basis polynomials.',
@@ -311,7 +311,7 @@ PROPS['C09'] = dict(
         dict(_SAN, name='C09_invariants', src='C10_invariants.cpp', defs=dict(quick=['-DMAXN=2', '-DSEQLEN=2'], thorough=['-DMAXN=3', '-DSEQLEN=2']), functions=['copy/move/self-move/swap, throwing calls, reuse of moved-from objects']),
         dict(_SAN, name='C09_value', src='C14_value.cpp', defs=dict(quick=['-DMAXN=2'], thorough=['-DMAXN=3']), functions=['operation histories incl. throwing in-place updates']),
     ],
-    generated=[dict(mode='c05', ntu=16, env=dict(quick={'C05_L2_QUICK': '48'}), template=dict(_SAN, defs=dict(quick=['-DMAXN=3', '-DMAXO=2', '-DFO=1'], thorough=['-DMAXN=4', '-DMAXO=2', '-DFO=1']), functions=['every operator transform incl. SplineOperator with every factor placement'])),
+    generated=[dict(mode='c05', ntu=16, env=dict(quick={'C05_L2_QUICK': '48', 'C05_DEEP': '16'}), template=dict(_SAN, defs=dict(quick=['-DMAXN=3', '-DMAXO=2', '-DFO=1'], thorough=['-DMAXN=4', '-DMAXO=2', '-DFO=1']), functions=['every operator transform incl. SplineOperator with every factor placement'])),
                dict(mode='c06', ntu=8, template=dict(_SAN, defs=dict(quick=['-DMAXN=3', '-DMAXO=2', '-DFO=1'], thorough=['-DMAXN=4', '-DMAXO=3', '-DFO=1']), functions=['BilinearForm::evaluate/evaluateInterval'])),
                dict(mode='c07', ntu=8, template=dict(_SAN, defs=dict(quick=['-DMAXN=3', '-DMAXO=2', '-DFO=1'], thorough=['-DMAXN=4', '-DMAXO=3', '-DFO=1']), functions=['LinearForm::evaluate/evaluateInterval']))],
     bounds=dict(quick='layer 2+3: the harnesses of C01-C08, C10, C12, C14, C15, C17 at reduced bounds (grids <=3-4 points, orders <=2-3, every window placement, every solver-feasible value-dependent path) built with -D_GLIBCXX_ASSERTIONS -D_GLIBCXX_DEBUG -fsanitize=undefined (quick) plus -fsanitize=address (thorough); every scalar division checked for a reachable zero divisor. Layer 1 (Engine B): all 2^64 index values of the checked accessors and of the Support life-cycle, and byte-level bounds of every load/store of 14 Spline-level operations (evaluation, copy, operator application incl. SplineOperator, product, forms, generator) with symbolic windows on grids of 2..3 points; plus an object-lifetime harness under AddressSanitizer in BOTH tiers (by-value getters of temporaries, supports/splines/results/operators/forms that outlive what they were built from)',
